@@ -4,6 +4,7 @@
 // lib/rgverif/shapes.py on every run).
 
 include!("common.rs");
+include!("c16.rs");
 
 // ------------------------------------------------------------ C03 / C01
 // Slow line path end to end (SliceByLine::run, the strategy `search_slice`
@@ -110,49 +111,120 @@ fn fast_matcher<S: Shape>(pat: usize, mode: u8, at_end: bool) -> Option<LtMatche
     })
 }
 
-fn c03_fast_enum<S: Shape>(mode: u8) {
-    let mut cfg = any_cfg(2);
-    cfg.passthru = false;
-    cfg.invert = false;
-    cfg.stop_nm = false;
+/// One harness per matcher mode.  Enumerated in-harness (concrete per
+/// iteration, so the search's control flow folds): hit pattern (all 2^NL),
+/// invert, stop-on-nonmatch, offset position, and (A,B) from a small list.
+/// Symbolic (decided by the solver): whether line numbers are on, and the
+/// index k of the sink call that refuses (stop) or fails (error) -- k beyond
+/// the stream means an uninterrupted run, which must equal the grep model
+/// (C03/C01); k inside it must yield the prefix (C16).
+fn fast_enum<S: Shape>(mode: u8, invs: &[bool], stops: &[bool], at_ends: &[bool], abs: &[(usize, usize)]) {
+    let mut cfg = Cfg { a: 0, b: 0, invert: false, passthru: false, lnum: kani::any(), stop_nm: false };
     let mut searcher = build_searcher::<S>(&cfg, false);
+    let k: usize = kani::any();
+    kani::assume(k <= evcap::<S>());
+    let fail: bool = kani::any();
+    let mut interrupted_mid = false;
     let mut delivered_all = false;
-    let mut v = 0;
-    while v < 8 {
-        let (inv, stop, at_end) = (v & 1 == 1, v & 2 == 2, v & 4 == 4);
-        cfg.invert = inv;
-        cfg.stop_nm = stop;
-        // same object the builder produced; only the two flags are switched
-        searcher.config.invert_match = inv;
-        searcher.config.stop_on_nonmatch = stop;
-        let mut pat = 0;
-        while pat < (1usize << S::NL) {
-            if let Some(matcher) = fast_matcher::<S>(pat, mode, at_end) {
-                let mut sink = RecSink::new(S::HAY);
-                let r = SliceByLine::new(&searcher, &matcher, S::HAY, &mut sink).run();
-                assert!(r.is_ok(), "search returns Ok");
-                let (want, count_known) = model_events::<S>(&matcher.plain.hit, &cfg);
-                assert_log_is_model(&sink, &want, count_known, evcap::<S>());
-                if sink.n >= S::NL + 2 {
-                    delivered_all = true;
+    for &inv in invs {
+        for &stop in stops {
+            for &at_end in at_ends {
+                for &(a, b) in abs {
+                    cfg.invert = inv;
+                    cfg.stop_nm = stop;
+                    cfg.a = a;
+                    cfg.b = b;
+                    // same object the builder produced; only these fields are switched
+                    searcher.config.invert_match = inv;
+                    searcher.config.stop_on_nonmatch = stop;
+                    searcher.config.after_context = a;
+                    searcher.config.before_context = b;
+                    let mut pat = 0;
+                    while pat < (1usize << S::NL) {
+                        if let Some(matcher) = fast_matcher::<S>(pat, mode, at_end) {
+                            let (full, _) = model_events::<S>(&matcher.plain.hit, &cfg);
+                            let mut sink = RecSink::new(S::HAY);
+                            sink.ctl = true;
+                            if fail {
+                                sink.fail_at = k;
+                            } else {
+                                sink.stop_at = k;
+                            }
+                            let r = SliceByLine::new(&searcher, &matcher, S::HAY, &mut sink).run();
+                            check_interrupted::<S>(&sink, &full, r.is_err(), k, fail);
+                            if k + 2 < full.n {
+                                interrupted_mid = true;
+                            }
+                            if k >= full.n && sink.n >= S::NL + 2 {
+                                delivered_all = true;
+                            }
+                        }
+                        pat += 1;
+                    }
                 }
             }
-            pat += 1;
         }
-        v += 1;
     }
-    kani::cover!(delivered_all, "reach-end");
+    kani::cover!(interrupted_mid || delivered_all, "reach-end");
     std::mem::forget(searcher);
 }
 
-pub(crate) fn c03_fast_confirmed<S: Shape>() {
-    c03_fast_enum::<S>(0)
+/// Confirmed offsets (reported at the start of the content), with and without
+/// inversion, contexts (0,0) and (1,1)
+pub(crate) fn c16_fast_confirmed<S: Shape>() {
+    fast_enum::<S>(0, &[false, true], &[false], &[false], &[(0, 0), (1, 1)])
 }
-pub(crate) fn c03_fast_candidate<S: Shape>() {
-    c03_fast_enum::<S>(1)
+/// every line is a Candidate (offset reported at the end of the content),
+/// with and without inversion, contexts (1,1)
+pub(crate) fn c16_fast_candidate_all<S: Shape>() {
+    fast_enum::<S>(2, &[false, true], &[false], &[true], &[(1, 1)])
 }
-pub(crate) fn c03_fast_candidate_all<S: Shape>() {
-    c03_fast_enum::<S>(2)
+/// stop-on-nonmatch on: the fast loop hands over to the slow loop after the
+/// first match; Candidate offsets, contexts (0,0) and (1,1)
+pub(crate) fn c16_fast_stop<S: Shape>() {
+    fast_enum::<S>(1, &[false], &[true], &[false], &[(0, 0), (1, 1)])
+}
+/// asymmetric contexts (thorough tier)
+pub(crate) fn c16_fast_asym<S: Shape>() {
+    fast_enum::<S>(0, &[false, true], &[false], &[false], &[(2, 0), (0, 2)])
+}
+
+/// find_by_line_fast alone, from an arbitrary line-start position, with fully
+/// SYMBOLIC hit / candidate / offset tables and reporting mode: returns the
+/// first line at or after the position that matches (Confirmed: hit; Candidate:
+/// flagged and confirmed on the stripped line), as exactly that line's range.
+pub(crate) fn c01_find_by_line_fast<S: Shape>() {
+    let hit = any_hits::<S>();
+    let matcher = LtMatcher::new::<S>(hit);
+    let cfg = Cfg { a: 0, b: 0, invert: false, passthru: false, lnum: false, stop_nm: false };
+    let searcher = build_searcher::<S>(&cfg, false);
+    let mut sink = RecSink::new(S::HAY);
+    let mut core = Core::new(&searcher, &matcher, &mut sink, true);
+    let p: usize = kani::any();
+    kani::assume(p <= S::NL);
+    core.pos = S::LSTART[p];
+    let got = core.find_by_line_fast(S::HAY);
+    let mut want = usize::MAX;
+    let mut k = 0;
+    while k < S::NL {
+        if k >= p && want == usize::MAX && hit[k] {
+            want = k;
+        }
+        k += 1;
+    }
+    match got {
+        Err(_) => assert!(false, "find_by_line_fast returns Ok"),
+        Ok(None) => assert!(want == usize::MAX, "a matching line at or after the position is found"),
+        Ok(Some(r)) => {
+            assert!(want != usize::MAX, "only a matching line is returned");
+            assert!(
+                r.start() == S::LSTART[want] && r.end() == S::LSTART[want + 1],
+                "the FIRST matching line at or after the position is returned, as that line's range"
+            );
+        }
+    }
+    kani::cover!(want != usize::MAX && want > p, "reach-end");
+    std::mem::forget(searcher);
 }
 
 // ------------------------------------------------------------ C02
@@ -214,7 +286,6 @@ pub(crate) fn c02_reader_passthru<S: Shape>() {
     c02_reader_body::<S>(cfg)
 }
 
-include!("c16.rs");
 include!("c13.rs");
 
 include!("shapes_gen.rs");
